@@ -115,6 +115,22 @@ def stepInstr (s : St) (i : Instr) : Sum St End :=
         | .ok _ vm => .inl { vm := vm, ctx := rc.2 }
         | .stop _ _ => .inr (.fault "stack"))
      | none => .inl { vm := { s.vm with dp := s.vm.dp + 2 }, ctx := rc.2 })
+  | 60 =>                                                   -- PUSH_GLYPH_ATTR <attr hi> <attr lo> <slot_ref>
+    let rc := slotat s.ctx (arg 2)
+    (match rc.1 with
+     | some sl =>
+       (match push (glyphAttr rc.2 (rc.2.seg.get sl).gid ((ps.getD 0 0) * 256 + ps.getD 1 0)) { s.vm with dp := s.vm.dp + 3 } with
+        | .ok _ vm => .inl { vm := vm, ctx := rc.2 }
+        | .stop _ _ => .inr (.fault "stack"))
+     | none => .inl { vm := { s.vm with dp := s.vm.dp + 3 }, ctx := rc.2 })
+  | 40 =>                                                   -- PUSH_SLOT_ATTR <slat> <slot_ref>: `getAttr(slat, 0)` of that slot
+    let rc := slotat s.ctx (arg 1)
+    (match rc.1 with
+     | some sl =>
+       (match push (slotAttr (rc.2.seg.get sl) (ps.getD 0 0)) { s.vm with dp := s.vm.dp + 2 } with
+        | .ok _ vm => .inl { vm := vm, ctx := rc.2 }
+        | .stop _ _ => .inr (.fault "stack"))
+     | none => .inl { vm := { s.vm with dp := s.vm.dp + 2 }, ctx := rc.2 })
   | 35 =>                                                   -- ATTR_SET <slat>: value popped
     (match pop s.vm with
      | .ok v vm => (match opAttrSet s.ctx (ps.getD 0 0) 0 (i16 v) with
@@ -125,6 +141,13 @@ def stepInstr (s : St) (i : Instr) : Sum St End :=
   | 36 =>                                                   -- ATTR_ADD <slat>: `setAttr(slat, 0, int32(val + getAttr(slat, 0)))`
     (match pop s.vm with
      | .ok v vm => (match opAttrSet s.ctx (ps.getD 0 0) 0 (i16 (i32 (v + curAttr s.ctx (ps.getD 0 0)))) with
+        | .cont c => .inl { vm := { vm with dp := vm.dp + 1 }, ctx := c }
+        | .died c => .inr (.normal { vm := vm, ctx := c })
+        | .fault w => .inr (.fault w))
+     | .stop _ _ => .inr (.fault "stack"))
+  | 37 =>                                                   -- ATTR_SUB <slat>: `setAttr(slat, 0, int32(getAttr(slat, 0) - val))`
+    (match pop s.vm with
+     | .ok v vm => (match opAttrSet s.ctx (ps.getD 0 0) 0 (i16 (i32 (curAttr s.ctx (ps.getD 0 0) - v))) with
         | .cont c => .inl { vm := { vm with dp := vm.dp + 1 }, ctx := c }
         | .died c => .inr (.normal { vm := vm, ctx := c })
         | .fault w => .inr (.fault w))
